@@ -386,6 +386,8 @@ func (s *Storer) newRdbWCloseObserver(w *RdbWriter, rdb *dataSetRdb) func(args .
 				if ds := s.getDataSet(); ds != nil && ds.GetRdb() == rdb {
 					ds.SetRdb(nil)
 				}
+				// its readers wait for bytes that never come and no later reset knows them : end them
+				rdb.Close()
 			}
 		}
 	}
